@@ -413,7 +413,12 @@ func (g *Generator) generateWithoutSaving(parents []*theTypeInfo, t reflect.Type
 	}
 
 	if !g.opts.exportComponentSchemas.ExportComponentSchemas || t.Kind() != reflect.Struct {
-		return openapi3.NewSchemaRef(t.Name(), schema), nil
+		// the name under which a reference that cuts a cycle will look this schema up
+		name := t.Name()
+		if name != "" {
+			name = g.generateTypeName(t)
+		}
+		return openapi3.NewSchemaRef(name, schema), nil
 	}
 
 	// Best way I could find to check that
